@@ -28,6 +28,7 @@ RULE = (
     "(a),(b),(c),(f); (f) files grown by two re-openings for append (same codec argument, none, another codec, another marker) "
     "parsed by the independent parser: records, unchanged header codec and marker; (g) files assembled with write_block from donor "
     "files of every codec, the donor blocks untouched or iterated first. distinct_nontrivial = distinct files (byte strings) examined."
+    ' Append files (f) are also produced with the stream cursor left after the magic, mid-file, and after one record was read; the independent parser rejects zero-length compressed payloads.'
 )
 ASSUMPTIONS = [
     "independent parser/writer mc/ref/container.py + mc/ref/binary.py; zlib/bz2/lzma of the standard library are the codec reference",
